@@ -140,11 +140,26 @@ def harness_json(args, **kw):
     return json.loads(last[-1])
 
 
+_workdirs = []
+
+
 def workdir(name):
     d = os.path.join(WORK, name)
     shutil.rmtree(d, ignore_errors=True)
     os.makedirs(d)
+    _workdirs.append(d)
     return d
+
+
+def cleanup_workdirs():
+    """Disk space is limited: the scratch data of a check that held (tapes, traces, TLC output: up to tens of GB in the
+    thorough tier) is removed when the check ends; it is kept after a violation and with VERIF_KEEP=1."""
+    if os.environ.get("VERIF_KEEP"):
+        return
+    for d in _workdirs:
+        if os.path.basename(d).startswith("replay"):
+            continue
+        shutil.rmtree(d, ignore_errors=True)
 
 
 def tla_string(s):
@@ -395,6 +410,7 @@ class Check:
             return 1
         print("OK property=%s tier=%s wall=%.1fs states=%d traces=%d evaluations=%d" % (
             self.prop, self.tier, wall, self.cov["states"], self.cov["traces_validated_against_impl"], self.cov["evaluations"]))
+        cleanup_workdirs()
         return 0
 
 
